@@ -297,6 +297,9 @@ def header_crc_once(ck, P, R="PAIR/header-crc-once"):
 def run(ck):
     P = prog("K1")
     ck.configs.add("K1")
+    # deflateCopy in the middle of a header field continues it at the same offset (round 9)
+    from . import c14 as _c14s
+    _c14s.copy_identity(ck, P)
     from .. import guards as _gas
     _gas.arm_store_before_suspend(ck, P, fields=("adler", "gzindex"))
     c02.header_capture(ck, P, "GUARD/header-capture")
